@@ -70,6 +70,16 @@ SEEDS = {
     "C17c-padded-datasets-sized-by-radiation-field": ("C17", "two or more buckets spaced closely relative to the padding (n_buckets x spacing < padding/2 grid widths, e.g. -H 28000), an impedance and an HDF5 output: the padded datasets are sized from the radiation field, HDF5 reads past the wake field's buffers", ["C10"]),
     "C18c-formfactor-upper-half-mirrored": ("C18", "wakePotential() and later updateCSR() on the SAME field object with an impedance that is non-zero above half the length (a user table given with its negative-frequency half): the upper half of the shared form-factor buffer holds the mirrored spectrum of the earlier profile", ["C07"]),
     "C20c-unsigned-trailing-garbage-accepted": ("C20", "a value that starts with digits and continues with garbage (64abc, 32.5, 1e3, 0x40) given to an unsigned option: read up to the first non-digit, no message, the run proceeds", []),
+    "C01d-identity-copies-first-bunch-only": ("C01", "more than one bunch and an Identity step whose target grid does not already hold the same data: only bunch 0's cells are copied", ["C08"]),
+    "C02d-swapoffset-truncates-to-one-bunch": ("C02", "two or more bunches and a y-direction kick set through swapOffset(): the offset vector is cut to one bunch, the tables of later bunches are never built", ["C01", "C08"]),
+    "C03d-xkick-reads-unfilled-bunch-tables": ("C03", "more than one bunch: the x-kick (drift) reads a per-bunch table that only exists for bunch 0, later bunches get the RF kick but no drift", ["C08"]),
+    "C04d-fp-bunch-offset-from-xsize": ("C04", "two or more filled bunches: the Fokker-Planck step addresses bunch n at n*_xsize*_ysize (_xsize is 1 for this map), later bunches are never written", ["C08"]),
+    "C05d-odd-grid-half-cell-all-kicks": ("C05", "an odd grid size: every kick map moves the distribution by an extra half cell per step that is in none of the recorded tables", ["C03"]),
+    "C06d-wakeloss-buffer-shared-nyquist": ("C06", "profiles with content at the highest frequency bin of the padded grid (cell-to-cell structure): the top bin of the shared buffer passes through with an implicit impedance of 1", []),
+    "C07d-pad-without-clear-ghost-in-wake": ("C07", "a bunch in a bucket other than 0 and updateCSR() before wakePotential() on the same object: the padded buffer keeps a ghost copy at offset 0 (same slip as C18b, judged by C07's Parseval relation)", ["C18"]),
+    "C09d-swap-drops-energy-projection": ("C09", "a copy made by assignment or swap onto an object that held another energy distribution: only the position projections travel", []),
+    "C10d-energy-axis-written-from-position-ruler": ("C10", "PhaseSpaceShiftX != PhaseSpaceShiftY: /Info/AxisValues_E is written from the position ruler", []),
+    "C08d-equal-currents-share-bunch0-wake": ("C08", "an impedance, two or more bunches with exactly equal set currents, and bunches whose wake potentials differ (different data or a long-range wake): every bunch is kicked with bunch 0's wake, the recorded wake stays right", ["C05"]),
     "C10-": ("C10", "", []),
     "C17-": ("C17", "", []),
 }
@@ -98,8 +108,11 @@ def run_one(sid, prop, tier):
         sh("git -C /repo clean -fdq -e _build")
     keys = re.findall(r"^  key=(\S+)", c.stderr, re.M)
     nv = len(re.findall(r"^VIOLATION property=", c.stdout, re.M))
-    return dict(applied=True, how=how, check="python3 tools/vcheck.py %s %s" % (prop, tier), exit=c.returncode, violation_lines=nv, keys=keys[:6],
-                detected=(c.returncode == 1 and nv > 0))
+    out = dict(applied=True, how=how, check="python3 tools/vcheck.py %s %s" % (prop, tier), exit=c.returncode, violation_lines=nv, keys=keys[:6],
+               detected=(c.returncode == 1 and nv > 0))
+    if c.returncode not in (0, 1) or (c.returncode == 1 and nv == 0):
+        out["error"] = "the check did not run to a verdict (build failure of the patched tree?): " + (c.stdout + c.stderr)[-300:]
+    return out
 
 
 def main():
@@ -127,7 +140,7 @@ def main():
         for p in [prop] + also:
             res = run_one(sid, p, tier)
             runs["%s %s" % (p, tier)] = res
-            print(sid, p, tier, "DETECTED" if res.get("detected") else "missed", res.get("keys", [])[:2], flush=True)
+            print(sid, p, tier, "DETECTED" if res.get("detected") else ("ERROR " + res["error"][-120:] if res.get("error") else "NOT-APPLIED" if not res.get("applied") else "missed"), res.get("keys", [])[:2], flush=True)
         with open(mp, "w") as f:
             json.dump(meta, f, indent=1)
 
